@@ -1,10 +1,12 @@
 import Driver.C11
 import Driver.Codec
 import Driver.C09
+import Driver.C08
 
 def main (args : List String) : IO UInt32 := do
   match args with
   | ["c11"] => Redproxy.Driver.C11.main; return 0
   | ["codec"] => Redproxy.Driver.Codec.main; return 0
   | ["c09"] => Redproxy.Driver.C09.main; return 0
+  | ["c08"] => Redproxy.Driver.C08.main; return 0
   | _ => IO.eprintln "usage: rpmodel <mode>  (cases on stdin, one output line per case on stdout)"; return 2
